@@ -91,12 +91,14 @@ def solve_problem(triples, dim, size, mult=None, rnd=None):
     """rows / rhs of the linearised problem (points optionally multiplied by `mult` and rounded as the C++ does),
     its least-squares solution by QR and the singular values of J"""
     rows, ys = [], []
+    ymag = 0.0
     for s, t, n in triples:
         if mult is not None:
             s = [rnd(v * mult) for v in s]
             t = [rnd(v * mult) for v in t]
         rows.append(_row(dim, s, n))
         ys.append(math.fsum((t[c] - s[c]) * n[c] for c in range(size)))
+        ymag = max(ymag, math.fsum(abs((t[c] - s[c]) * n[c]) for c in range(size)))
     e = 3 if dim == 2 else 6
     if len(rows) < e:
         return None
@@ -107,7 +109,8 @@ def solve_problem(triples, dim, size, mult=None, rnd=None):
     sv = singular_values(R, e)
     if sv[-1] <= 0:
         return None
-    return {'rows': rows, 'ys': ys, 'x': x, 'smax': sv[0], 'smin': sv[-1], 'cond': sv[0] / sv[-1], 'e': e, 'n': len(rows)}
+    return {'rows': rows, 'ys': ys, 'x': x, 'smax': sv[0], 'smin': sv[-1], 'cond': sv[0] / sv[-1], 'e': e, 'n': len(rows),
+            'ymag': ymag, 'ynorm': math.sqrt(math.fsum(v * v for v in ys))}
 
 
 _CACHE = {}
@@ -148,6 +151,13 @@ def analyse(case):
                         u = U[T]
                         c = max(plain['cond'], seen['cond'])
                         info['tol'] = 1e-9 + 16.0 * plain['e'] * math.sqrt(plain['n']) * u * c * c
+                        # allowed deviation per parameter, in the units of the problem the solver sees, mapped through Ac:
+                        #   tol * max(|x'|, |Y'| / sigma_max')   (explicit inverse of the normal matrix; J^T Y is accurate relative to |J|^T |Y|)
+                        # + 8 u sqrt(n) max_k sum_c |(t - s)_c n_c| / sigma_min'   (the right-hand sides themselves are rounded termwise)
+                        base = max(max(abs(v) for v in seen['x']), seen['ynorm'] / seen['smax'])
+                        a = info['tol'] * base + 8.0 * u * math.sqrt(seen['n']) * seen['ymag'] / seen['smin']
+                        icfg = 1.0 / abs(cfg) if cfg else 1.0
+                        info['allow'] = [a * icfg] * dim + [a] * (plain['e'] - dim)
                         info['scale'] = max(max(abs(v) for v in info['xexp']), 1e-300)
         except (ValueError, IndexError):
             info = None
@@ -221,8 +231,7 @@ def compare(case, li, op, impl, model):
         return True        # rank-deficient problem: both sides are garbage of different kinds
     if any(math.isnan(v) for v in xa + xb):
         return all(math.isnan(p) == math.isnan(q) for p, q in zip(xa, xb))
-    tol, scale = info['tol'], max(info['scale'], max(abs(v) for v in xa + xb))
-    return all(abs(p - q) <= tol * scale for p, q in zip(xa, xb))
+    return all(abs(p - q) <= 2 * al for p, q, al in zip(xa, xb, info['allow']))
 
 
 # ------------------------------------------------------------------ generators
@@ -465,15 +474,16 @@ def oracle(case, out, stats):
         if any(math.isnan(v) or math.isinf(v) for v in x):
             bad('non-finite', 'parameters not finite on a well-posed problem')
             continue
-        tol, scale = info['tol'], info['scale']
+        tol, scale, allow = info['tol'], info['scale'], info['allow']
+        ratio_ = max(abs(a - b) / al for a, b, al in zip(x, info['xexp'], allow))
         err = max(abs(a - b) for a, b in zip(x, info['xexp']))
         bump('solutions_checked')
         bump('solutions_%s' % info['ty'])
         bump('overload_%s%s' % ('p' if info['pre'] else '', info['variant']))
-        stats['max_err_over_tol'] = max(stats.get('max_err_over_tol', 0.0), err / (tol * scale))
-        if not (err <= tol * scale):
-            bad('minimiser', 'parameters differ from the least-squares solution of the linearised problem by %.3g (allowed %.3g, cond %.3g)' % (
-                err, tol * scale, info['plain']['cond']), ty=info['ty'], variant=info['variant'], pre=info['pre'])
+        stats['max_err_over_tol'] = max(stats.get('max_err_over_tol', 0.0), ratio_)
+        if not (ratio_ <= 1.0):
+            bad('minimiser', 'parameters differ from the least-squares solution of the linearised problem by %.3g (%.3g times the allowance, cond %.3g)' % (
+                err, ratio_, info['plain']['cond']), ty=info['ty'], variant=info['variant'], pre=info['pre'])
             continue
         if abs(info['ratio'] - 1.0) < 1e-6:
             # normal equations of the (unscaled) linearised problem
@@ -483,16 +493,18 @@ def oracle(case, out, stats):
             g = [math.fsum(P['rows'][k][i] * r[k] for k in range(P['n'])) for i in range(e)]
             gs = max(math.fsum(abs(P['rows'][k][i]) * (math.fsum(abs(P['rows'][k][c] * x[c]) for c in range(e)) + abs(P['ys'][k]))
                                for k in range(P['n'])) for i in range(e))
+            # + the effect of the termwise rounding of the right-hand sides: |J^T dY| <= sum_k |J_ki| 8 u ymag
+            gabs = 8.0 * U[info['T']] * P['ymag'] * max(math.fsum(abs(P['rows'][k][i]) for k in range(P['n'])) for i in range(e))
             bump('normal_equations_checked')
-            if not (max(abs(v) for v in g) <= tol * max(gs, 1e-300)):
-                bad('normal-equations', 'J^T(Jx-Y) = %.3g exceeds %.3g' % (max(abs(v) for v in g), tol * gs))
+            if not (max(abs(v) for v in g) <= tol * max(gs, 1e-300) + gabs):
+                bad('normal-equations', 'J^T(Jx-Y) = %.3g exceeds %.3g' % (max(abs(v) for v in g), tol * gs + gabs))
             if li in group:
-                gx.append((li, x, tol, scale, info))
+                gx.append((li, x, allow, info))
             # ground truth
             if truth and li in group and truth.get('exact'):
                 u = U[info['T']]
                 maxc = max(max(abs(v) for v in s + t) for s, t, _ in info['triples'])
-                slack = tol * scale + math.sqrt(P['n']) * 8 * u * maxc / P['smin']
+                slack = max(allow) + math.sqrt(P['n']) * 8 * u * maxc / P['smin']
                 tr, th = truth['tr'], truth['theta']
                 if dim == 2:
                     xs = list(tr) + [th]
@@ -514,8 +526,8 @@ def oracle(case, out, stats):
         else:
             bump('mismatched_configuration_checked')
     # pairwise invariance inside the group
-    for (l1, x1, t1, s1, i1), (l2, x2, t2, s2, i2) in zip(gx, gx[1:]):
-        d = max(abs(a - b) for a, b in zip(x1, x2))
+    for (l1, x1, a1, i1), (l2, x2, a2, i2) in zip(gx, gx[1:]):
+        d = max(abs(a - b) / (p + q) for a, b, p, q in zip(x1, x2, a1, a2))
         bump('invariance_pairs')
         if i1['ty'] != i2['ty']:
             bump('invariance_pairs_homogeneous_vs_cartesian')
@@ -523,10 +535,10 @@ def oracle(case, out, stats):
             bump('invariance_pairs_preconditioned_vs_plain')
         if i1['variant'] != i2['variant']:
             bump('invariance_pairs_aligned_vs_indexed')
-        if not (d <= (t1 + t2) * max(s1, s2)):
-            fails.append({'kind': 'invariance', 'detail': '%s: lines %d (%s %s%s) and %d (%s %s%s) differ by %.3g (allowed %.3g)' % (
+        if not (d <= 1.0):
+            fails.append({'kind': 'invariance', 'detail': '%s: lines %d (%s %s%s) and %d (%s %s%s) differ by %.3g times the allowance' % (
                 case.get('name'), l1, i1['ty'], 'p' if i1['pre'] else '', i1['variant'], l2, i2['ty'], 'p' if i2['pre'] else '', i2['variant'],
-                d, (t1 + t2) * max(s1, s2)), 'fields': {}})
+                d), 'fields': {}})
     return fails
 
 
